@@ -302,7 +302,7 @@ pub fn description_states(thorough: bool, seeds: u64) -> (Vec<String>, Vec<(Stri
     }
     // D-arms at the named-variant and root positions
     let a = DArms { max_depth: 2 };
-    let (all, tr, complete) = enumerate(&a, if thorough { 2 } else { 1 }, 3_000_000);
+    let (all, tr, complete) = enumerate(&a, 2, 3_000_000);
     info.push((a.name(), all.len() as u64, tr, complete));
     for (_, s) in &all {
         for pos in [Position::NamedVariant, Position::TupleStruct] {
